@@ -8,12 +8,18 @@ import concurrent.futures as cf
 import runner
 
 
-def run(seed, tier, cases, impl):
+def run(seed, tier, cases, impl, model=None):
     rng = random.Random(seed * 7919 + 13)
     pool = [l for l in cases if l.startswith("S stream.") or l.startswith("S hist.") or l.startswith("V fn.allocate")
             or l.startswith("V fn.mixed_step") or l.startswith("V fn.optimal")]
     k = 160 if tier == "thorough" else 48
     sample = rng.sample(pool, min(k, len(pool)))
+    # every case on which the shared-process trace differs from the model's is re-run alone as well: if it then behaves
+    # differently, the difference is a dependence on what else happened in the process, with that case as the failing input
+    if model is not None:
+        picked = set(sample)
+        odd = [l for l in pool if l not in picked and impl.get(l.split()[1]) != model.get(l.split()[1])]
+        sample += odd[:60]
     findings = []
     xcases, ximpl, xmodel = [], {}, {}
 
